@@ -102,7 +102,7 @@ func (c ControlHandler) HandlePing(h ws.Header) error {
 		r = NewCipherReader(r, h.Mask)
 	}
 
-	_, err := io.Copy(w, r)
+	_, err := io.CopyN(w, r, h.Length)
 	if err == nil {
 		err = w.Flush()
 	}
@@ -116,14 +116,11 @@ func (c ControlHandler) HandlePong(h ws.Header) error {
 		return nil
 	}
 
-	buf := pbytes.GetLen(int(h.Length))
-	defer pbytes.Put(buf)
-
 	// Discard pong message according to the RFC6455:
 	// A Pong frame MAY be sent unsolicited. This serves as a
 	// unidirectional heartbeat. A response to an unsolicited Pong frame
 	// is not expected.
-	_, err := io.CopyBuffer(ioutil.Discard, c.Src, buf)
+	_, err := io.CopyN(ioutil.Discard, c.Src, h.Length)
 
 	return err
 }
